@@ -458,7 +458,7 @@ PROPS["C07"] = dict(
     streams=["C07"],
     compare=cmp_eval,
     classify=classify_logs,
-    gate_imports=EVAL_GATE + "From Cel.Proofs Require Import NoCrash OrderProofs.\nOpen Scope nat_scope.",
+    gate_imports=EVAL_GATE + "From Cel.Proofs Require Import NoCrash OrderProofs CostProofs.\nOpen Scope nat_scope.",
     exhaustive=False,
     rule="a case is a program in which every leaf and (about half of) the calls are wrapped by a "
          "logging host function with a unique id, so the ordered log shows order and multiplicity of "
